@@ -1203,7 +1203,7 @@ Proof.
   set (s0 := {| ra_seq := leaf_seq 0 (length levels); ra_lev := levels; ra_stack := [0] |}).
   destruct (recombine_arr_loop_refines levels (length r) 1 s0) as [s' [R [W A]]].
   - unfold rwf, s0. cbn [ra_seq ra_lev ra_stack]. rewrite leaf_seq_length. split; [reflexivity|].
-    split; [repeat constructor; intros []|]. repeat constructor. cbn. lia.
+    split; [repeat constructor; intros []|]. constructor; [|constructor]. unfold levels. cbn [length N.to_nat]. lia.
   - unfold s0. cbn [ra_seq]. apply leaf_seq_length.
   - unfold levels. cbn [length]. lia.
   - repeat constructor.
